@@ -159,6 +159,7 @@ typedef struct {
   long         n_requests;   // requests so far (malloc/calloc/realloc/aligned_alloc)
   long         fail_at;      // refuse exactly this request index (0-based), -1 = none
   long         fail_from;    // refuse every request with index >= this, -1 = none
+  unsigned long long fail_bits;   // bit k set: refuse request k (k < 64), for arbitrary refusal patterns
   long         n_refused;
   long         n_errors;     // discipline errors
   char*        log;          // event log since last v_alloc_take_log
@@ -205,7 +206,7 @@ static bool
 v_alloc_refuse(VAlloc* a)
 {
   const long k = a->n_requests++;
-  if (k == a->fail_at || (a->fail_from >= 0 && k >= a->fail_from)) {
+  if (k == a->fail_at || (a->fail_from >= 0 && k >= a->fail_from) || (k < 64 && (a->fail_bits >> k & 1ULL))) {
     ++a->n_refused;
     errno = ENOMEM;   // as malloc, calloc, realloc and posix_memalign do when they fail
     return true;
@@ -483,6 +484,7 @@ v_alloc_reset(VAlloc* a)
   a->n_requests = 0;
   a->fail_at    = -1;
   a->fail_from  = -1;
+  a->fail_bits  = 0;
   a->n_refused  = 0;
   a->n_errors   = 0;
   a->log_len    = 0;
